@@ -7,7 +7,9 @@ T1-tie   static inventory scan (c10_scan.py) of every set/sort/impurity site of 
 T2       real `gapic.utils.lines.sort_lines`, the generator's own Jinja `|sort(attribute=…)`, `|sort`,
          `in`, and `Proto.disambiguate` vs the Lean model on the same inputs (incl. permutations).
 T3       the ORDER of definitions in the emitted files (resource path helpers, retryable exception
-         lists) of every sub-process run vs the model's set of possible outcomes.
+         lists, AUTH_SCOPES, sub-package files in CodeGeneratorResponse.file, snippet index) of every
+         sub-process run vs the model's set of possible outcomes.
+probes   (informational, different requests) proto_file in another topological order; parameter string permuted.
 """
 from __future__ import annotations
 import concurrent.futures as cf
@@ -32,7 +34,7 @@ SCALARS = ["string", "int32", "int64", "bool", "double", "bytes", "uint32"]
 
 
 # ----------------------------------------------------------------------------------------- generator
-def gen_spec(r: apigen.Rng, idx: int, clean: bool):
+def gen_spec(r: apigen.Rng, idx: int, clean: bool, rich: bool = False, extop=None):
     """'determinism' profile (DESIGN §7.10): several resources (equal short type names unless `clean`),
     several files/imports/module-name collisions, several retryable codes, equal method names across
     services, nested/recursive field types, LRO, paging, REST query params, snippets on/off.
@@ -121,8 +123,50 @@ def gen_spec(r: apigen.Rng, idx: int, clean: bool):
         services.append(svc)
     opts = {"transport": r.pick(["grpc", "grpc+rest", "rest", "grpc+rest"]), "snippets": r.maybe(0.35),
             "metadata": r.maybe(0.6), "numeric_enums": r.maybe(0.3), "retry": r.maybe(0.8), "ads": r.maybe(0.12)}
-    return {"idx": idx, "clean": clean, "nfiles": nfiles, "messages": msgs, "file_resources": file_res,
+    spec = {"idx": idx, "clean": clean, "nfiles": nfiles, "messages": msgs, "file_resources": file_res,
             "services": services, "opts": opts}
+    spec["extras"] = gen_extras(r, spec, rich)
+    if extop is not None:
+        spec["extras"]["extop"] = extop
+    if spec["extras"].get("extop"):
+        opts["transport"] = "rest"; opts["ads"] = False        # extended operations exist for REST only
+    if spec["extras"].get("mixins") or spec["extras"].get("subpkgs"):
+        opts["ads"] = False
+    return spec
+
+
+SCOPES = ["https://www.googleapis.com/auth/cloud-platform", "https://www.googleapis.com/auth/lib.read",
+          "https://www.googleapis.com/auth/lib.write", "https://example.com/auth/x", "https://example.com/auth/Y",
+          "https://www.googleapis.com/auth/lib.admin", "https://www.googleapis.com/auth/cloud-platform.read-only"]
+SUBPKGS = ["alpha", "beta", "gamma", "delta", "omega"]
+OPS_API, LOC_API, IAM_API = "google.longrunning.Operations", "google.cloud.location.Locations", "google.iam.v1.IAMPolicy"
+MIXIN_RULES = {
+    OPS_API: [("GetOperation", "get", "/v1/{name=operations/*}", None), ("ListOperations", "get", "/v1/{name=operations}", None),
+              ("DeleteOperation", "delete", "/v1/{name=operations/*}", None), ("CancelOperation", "post", "/v1/{name=operations/*}:cancel", "*")],
+    LOC_API: [("GetLocation", "get", "/v1/{name=projects/*/locations/*}", None), ("ListLocations", "get", "/v1/{name=projects/*}/locations", None)],
+    IAM_API: [("GetIamPolicy", "post", "/v1/{resource=shelves/*}:getIamPolicy", "*"), ("SetIamPolicy", "post", "/v1/{resource=shelves/*}:setIamPolicy", "*"),
+              ("TestIamPermissions", "post", "/v1/{resource=shelves/*}:testIamPermissions", "*")],
+}
+
+
+def gen_extras(r, spec, rich):
+    """the shapes that give every 'ordered/sorted' inventory site at least three distinct elements to order:
+    OAuth scopes, sub-packages (messages + enums), mixin APIs (service yaml), extra/nested enums, multi-field
+    method signatures, an LRO request that itself carries a google.longrunning.Operation (two spellings of the
+    same import meet in one sort_lines block), compute-style extended-operation services.
+    `rich` forces all of them (search profile / every few APIs), otherwise each is drawn independently."""
+    def on(p):
+        return rich or r.maybe(p)
+    ex = {}
+    ex["scopes"] = {svc["name"]: r.sample(SCOPES, r.randint(3, 5) if on(0.5) else r.randint(1, 2)) for svc in spec["services"]}
+    ex["subpkgs"] = r.sample(SUBPKGS, r.randint(3, 4)) if on(0.4) else (r.sample(SUBPKGS, r.randint(1, 2)) if r.maybe(0.3) else [])
+    ex["mixins"] = [a for a in (OPS_API, LOC_API, IAM_API) if on(0.35)]
+    ex["enums"] = r.randint(3, 5) if on(0.5) else 0
+    ex["multisig"] = on(0.5)
+    ex["op_field"] = on(0.4)
+    ex["extop"] = (rich and r.maybe(0.5)) or r.maybe(0.12)
+    ex["host_port"] = r.maybe(0.2)
+    return ex
 
 
 def build_files(spec):
@@ -193,11 +237,40 @@ def build_files(spec):
             mo.field("detail", "message", type_name=f".{PKG}.{m['name']}.Detail")
     for fr in spec["file_resources"]:
         files[last].resource_definition(fr["type"], fr["pattern"])
-    # services live in the last file (sees every message)
+    ex = spec.get("extras") or {}
+    subfiles = []
+    for sp in ex.get("subpkgs", []):                     # message/enum-only files in sub-packages of the API package
+        sf = apigen.File(f"acme/lib/v1/{sp}/{sp}_types.proto", f"{PKG}.{sp}", deps=[])
+        cap = sp.capitalize()
+        ke = sf.enum(f"{cap}Kind", [f"{sp.upper()}_KIND_UNSPECIFIED", f"{sp.upper()}_ONE", f"{sp.upper()}_TWO"])
+        info = sf.msg(f"{cap}Info"); info.field("label"); info.field("kind", "enum", type_name=ke); info.field("weight", "int32")
+        more = sf.msg(f"{cap}Extra"); more.field("info", "message", type_name=info); more.field("tags", repeated=True)
+        subfiles.append(sf)
     f = files[last]
+    for sf in subfiles:
+        f.dep(sf.name)
+    if subfiles:
+        for k in order:                                  # messages of the last file reference the sub-package types
+            if home[k] == last:
+                for j, sp in enumerate(ex["subpkgs"]):
+                    if (k + j) % 2 == 0:
+                        objs[k].field(f"sub_{sp}", "message", type_name=f".{PKG}.{sp}.{sp.capitalize()}Info")
+                        objs[k].field(f"kind_{sp}", "enum", type_name=f".{PKG}.{sp}.{sp.capitalize()}Kind")
+    extra_enums = []
+    for j in range(ex.get("enums", 0)):
+        nm = ["Zeta", "Priority", "aspect", "Level", "Tone"][j]
+        extra_enums.append(files[0].enum(nm, [f"{nm.upper()}_UNSPECIFIED", f"{nm.upper()}_A", f"{nm.upper()}_B"]))
+        objs[order[j % len(order)]].field(f"e_{nm.lower()}", "enum", type_name=f".{PKG}.{nm}")
+        if j % 2 == 0:
+            ne = objs[order[0]].nested_enum(f"Inner{nm.capitalize()}", [f"INNER_{nm.upper()}_UNSPECIFIED", f"INNER_{nm.upper()}_X"])
+            objs[order[0]].field(f"inner_{nm.lower()}", "enum", type_name=ne)
+    if ex.get("extop"):
+        add_extops(f)
+    # services live in the last file (sees every message)
     retry_cfg = {"methodConfig": []}
     for svc in spec["services"]:
-        so = f.service(svc["name"])
+        scopes = tuple((ex.get("scopes") or {}).get(svc["name"], ("https://example.com/auth/x",)))
+        so = f.service(svc["name"], host="lib.example.com:8443" if ex.get("host_port") else "lib.example.com", scopes=scopes)
         for me in svc["methods"]:
             tgt = me["target"]
             rq = f.msg(f"{svc['name']}{me['name']}Request")
@@ -206,7 +279,12 @@ def build_files(spec):
             http_uri = "/v1/{name=" + f"c{tgt}s/*" + "}"
             body = "*" if me["http"] in ("post", "patch") else None
             sigs = ["name"] if me["sig"] else []
+            if ex.get("multisig"):
+                fl = [rf["name"] for rf in me["req_fields"] if rf["kind"] in ("string", "int32", "bool", "message")]
+                sigs = sigs + [",".join(fl[:4])] + ([",".join(reversed(fl[:3]))] if len(fl) >= 3 else [])
             kind = me["kind"]
+            if kind == "lro" and ex.get("op_field"):
+                rq.field("prior", "message", type_name=".google.longrunning.Operation")
             if kind == "paged":
                 rq.field("page_size", "int32"); rq.field("page_token")
                 rs = f.msg(f"{svc['name']}{me['name']}Response")
@@ -226,7 +304,50 @@ def build_files(spec):
                     "name": [{"service": f"{PKG}.{svc['name']}", "method": me["name"]}], "timeout": "60s",
                     "retryPolicy": {"maxAttempts": 5, "initialBackoff": "0.1s", "maxBackoff": "60s",
                                     "backoffMultiplier": 1.3, "retryableStatusCodes": me["codes"]}})
-    return [shared] + files, files, retry_cfg
+    return [shared] + subfiles + files, subfiles + files, retry_cfg
+
+
+def add_extops(f):
+    """compute-style extended operations: three polling services and one service whose methods name them
+    (`api.get_extended_operations_services(service)` is then a SET of three services)"""
+    from google.cloud import extended_operations_pb2 as exo
+    f.dep("google/cloud/extended_operations.proto")
+    op = f.msg("Operation")
+    st = op.nested_enum("Status", ["DONE"])
+    op.field("name", optional=True).options.Extensions[exo.operation_field] = exo.NAME
+    op.field("http_error_message", optional=True).options.Extensions[exo.operation_field] = exo.ERROR_MESSAGE
+    op.field("http_error_status_code", "int32", optional=True).options.Extensions[exo.operation_field] = exo.ERROR_CODE
+    op.field("status", "enum", type_name=st, optional=True).options.Extensions[exo.operation_field] = exo.STATUS
+    addr = f.msg("Address"); addr.field("address", optional=True)
+    ad = f.service("Addresses")
+    for scope_name in ("Region", "Zone", "Global"):
+        g = f.msg(f"Get{scope_name}OperationRequest")
+        g.field("operation", required=True).options.Extensions[exo.operation_response_field] = "name"
+        g.field("project", required=True); g.field("region", required=True)
+        ro = f.service(f"{scope_name}Operations")
+        m = ro.method("Get", g, op, http=("get", f"/compute/v1/projects/{{project}}/{scope_name.lower()}s/{{region}}/operations/{{operation}}"),
+                      sigs=["project,region,operation"])
+        m.options.Extensions[exo.operation_polling_method] = True
+        ins = f.msg(f"Insert{scope_name}AddressRequest")
+        ins.field("address_resource", "message", type_name=addr); ins.field("project", required=True); ins.field("region")
+        m = ad.method(f"Insert{scope_name}", ins, op, http=("post", f"/compute/v1/projects/{{project}}/{scope_name.lower()}s/{{region}}/addresses"),
+                      body="address_resource", sigs=["project,region,address_resource"])
+        m.options.Extensions[exo.operation_service] = f"{scope_name}Operations"
+
+
+def service_yaml(spec):
+    apis = (spec.get("extras") or {}).get("mixins") or []
+    if not apis:
+        return None
+    rules = []
+    for a in apis:
+        for (m, verb, uri, body) in MIXIN_RULES[a]:
+            d = {"selector": f"{a}.{m}", verb: uri}
+            if body:
+                d["body"] = body
+            rules.append(d)
+    return {"type": "google.api.Service", "config_version": 3, "name": "lib.example.com",
+            "apis": [{"name": a} for a in apis], "http": {"rules": rules}}
 
 
 def build_request(spec, workdir):
@@ -246,6 +367,13 @@ def build_request(spec, workdir):
         with open(p, "w") as fh:
             json.dump(retry_cfg, fh)
         params.append(f"retry-config={p}")
+    y = service_yaml(spec)
+    if y is not None and not o.get("ads"):
+        import yaml
+        p = os.path.join(workdir, f"service_{spec['idx']}.yaml")
+        with open(p, "w") as fh:
+            yaml.safe_dump(y, fh)
+        params.append(f"service-yaml={p}")
     req = apigen.request(allf, ",".join(params), targets=targets)
     return req.SerializeToString(), req
 
@@ -319,22 +447,55 @@ def classify(spec_types_by_service, summary):
 
 
 # ----------------------------------------------------------------------------------------- runs
+ENVS = [{}, {"LANG": "C", "LC_ALL": "C", "TZ": "UTC"}, {"LANG": "en_US.UTF-8", "TZ": "Asia/Tokyo", "COLUMNS": "40"},
+        {"LANG": "tr_TR.UTF-8", "LC_ALL": "tr_TR.UTF-8", "TZ": "America/St_Johns", "HOME": "/nonexistent"},
+        {"LC_ALL": "POSIX", "PYTHONDONTWRITEBYTECODE": "1", "TMPDIR": "/var/tmp", "USER": "nobody"}]
+
+
 def schedules(ctx, r, workdir, nseeds):
-    """(hash seed, cwd) per process; the first seed is run twice (wall-clock varies by itself)"""
+    """[hash seed, cwd, extra environment] per process: distinct PYTHONHASHSEEDs (incl. `random`), three working
+    directories, different locale / time zone / HOME; the first seed is run twice (wall-clock varies by itself)"""
     d1 = os.path.join(workdir, "cwd_a"); d2 = os.path.join(workdir, "cwd_b", "deeper")
     os.makedirs(d1, exist_ok=True); os.makedirs(d2, exist_ok=True)
     seeds = [0] + r.sample(range(1, 4000), nseeds - 2) + ["random"]
-    out = [(str(s), (d1 if i % 2 == 0 else d2)) for i, s in enumerate(seeds)]
-    out.append((str(seeds[0]), "/"))
+    out = [[str(s), (d1 if i % 2 == 0 else d2), ENVS[i % len(ENVS)]] for i, s in enumerate(seeds)]
+    out.append([str(seeds[0]), "/", ENVS[1]])
     return out
 
 
 def run_many(jobs, workers=None):
-    """jobs: [(req_bytes, seed, cwd)] -> [(rc, out, err)] in order, in parallel"""
+    """jobs: [(req_bytes, seed, cwd, env)] -> [(rc, out, err)] in order, in parallel"""
     workers = workers or max(2, min(12, (os.cpu_count() or 4) - 2))
     with cf.ThreadPoolExecutor(max_workers=workers) as ex:
-        futs = [ex.submit(genrun.generate_subproc, b, {"PYTHONHASHSEED": s}, c, 600) for (b, s, c) in jobs]
+        futs = [ex.submit(genrun.generate_subproc, b, {**(e or {}), "PYTHONHASHSEED": s}, c, 900) for (b, s, c, e) in jobs]
         return [f.result() for f in futs]
+
+
+def topo_permuted(req, r):
+    """the same request with `proto_file` in another order that protoc could legally have produced
+    (every file after its dependencies)"""
+    files = list(req.proto_file)
+    by_name = {f.name: f for f in files}
+    done, out = set(), []
+    pending = files[:]
+    while pending:
+        ready = [f for f in pending if all(d in done or d not in by_name for d in f.dependency)]
+        f = r.pick(ready)
+        out.append(f); done.add(f.name); pending.remove(f)
+    q = plugin_pb2.CodeGeneratorRequest()
+    q.CopyFrom(req)
+    del q.proto_file[:]
+    q.proto_file.extend(out)
+    return q
+
+
+def params_permuted(req, r):
+    q = plugin_pb2.CodeGeneratorRequest()
+    q.CopyFrom(req)
+    ps = req.parameter.split(",")
+    r.shuffle(ps)
+    q.parameter = ",".join(ps)
+    return q
 
 
 def ask(ctx, ops):
@@ -352,12 +513,12 @@ def ask(ctx, ops):
 
 # ----------------------------------------------------------------------------------------- inventory (T1-style tie)
 THEOREMS_FOR_CLASS = {
-    "S1": ["sort_lines_perm_invariant", "sorted_perm_invariant"],
+    "S1": ["sort_lines_perm_invariant", "sorted_perm_invariant", "sort_total_order_perm_invariant", "subpackages_order_free"],
     "S2": ["sort_by_key_perm_invariant", "sort_by_key_needs_injective", "retry_order_free", "query_params_order_free",
            "resource_helpers_order_free", "resource_helpers_f4_regression"],
     "S3": ["s3_mem_perm_invariant", "s3_length_perm_invariant", "disambiguate_perm_invariant", "module_collides_perm_invariant"],
     "S4": ["s4_chain", "import_block_order_free", "colliding_module_perm_invariant"],
-    "S5": ["pipeline_order_free"],
+    "S5": ["pipeline_order_free", "oauth_scopes_keep_declaration_order"],
 }
 
 
@@ -512,6 +673,28 @@ def t2_functions(ctx, r):
         ctx.case(distinct_key=["jinja_sort", xs], nontrivial=len(xs) > 1); ctx.traces += 1
         if mo.get("order") != real:
             ctx.disagree("T2:c10.jinja_sort", f"model {mo.get('order')} vs impl {real}", {"xs": xs})
+    # ---- S5 Service.oauth_scopes on the real wrapper (option strings with blanks, empty entries, duplicates)
+    # (real Service objects out of API.build: one API with one service per option string)
+    from google.api import client_pb2
+    sf = apigen.File("acme/scopes/v1/scopes.proto", "acme.scopes.v1")
+    em = sf.msg("Ping"); em.field("name")
+    opts_ = []
+    for k in range(ctx.n(40, 300)):
+        parts = [r.pick(["a", "https://x/y", " b", "c ", "", " ", "a", "\tz", "Q", "a b"]) for _ in range(r.randint(0, 5))]
+        opt = ",".join(parts)
+        so = sf.service(f"S{k}", scopes=())
+        so.method("Ping", em, em)
+        so.pb.options.Extensions[client_pb2.oauth_scopes] = opt
+        opts_.append(opt)
+    sapi, _ = genrun.build_api(apigen.request([sf], "transport=grpc,autogen-snippets=false"))
+    ops, meta = [], []
+    for k, opt in enumerate(opts_):
+        svc = sapi.services[f"acme.scopes.v1.S{k}"]
+        ops.append({"op": "c10.scopes", "opt": opt}); meta.append((opt, list(svc.oauth_scopes)))
+    for (opt, real), mo in zip(meta, ask(ctx, ops)):
+        ctx.case(distinct_key=["oauth_scopes", opt], nontrivial=bool(opt)); ctx.traces += 1
+        if mo.get("r") != real:
+            ctx.disagree("T2:c10.oauth_scopes", f"model {mo.get('r')} vs impl {real}", {"opt": opt})
     # ---- exception class table of the S2 instance theorem
     import grpc
     from google.api_core import exceptions
@@ -622,21 +805,46 @@ def snake(name):
     return gu.to_snake_case(name)
 
 
-def run_api(ctx, r, spec, workdir, nseeds, label):
-    try:
-        req_bytes, req = build_request(spec, workdir)
-    except Exception as e:            # the descriptor builder (our stand-in for protoc) rejected the spec
-        ctx.unsupported += 1
-        ctx.count("skipped", "descriptor-builder:" + type(e).__name__)
-        return
-    sched = schedules(ctx, r, workdir, nseeds)
-    try:
-        api, per_service = t2_schema(ctx, r, req, spec)
-    except Exception as e:
-        ctx.count("skipped", "schema-build:" + genrun.crash_signature(e))
-        api, per_service = None, {}
-    outs = run_many([(req_bytes, s, c) for s, c in sched])
-    observe(ctx, spec, sched, outs, api, per_service, label)
+def run_api(ctx, r, spec, workdir, nseeds, label, probe=False):
+    run_apis(ctx, [(r, spec, label, probe)], workdir, nseeds)
+
+
+def run_apis(ctx, items, workdir, nseeds):
+    """items: [(rng, spec, label, probe)]. All processes of all items run in one pool (the APIs are independent)."""
+    prepared, jobs = [], []
+    for (r, spec, label, probe) in items:
+        try:
+            req_bytes, req = build_request(spec, workdir)
+        except Exception as e:            # the descriptor builder (our stand-in for protoc) rejected the spec
+            ctx.unsupported += 1
+            ctx.count("skipped", "descriptor-builder:" + type(e).__name__)
+            continue
+        sched = schedules(ctx, r, workdir, nseeds)
+        try:
+            api, per_service = t2_schema(ctx, r, req, spec)
+        except Exception as e:
+            ctx.count("skipped", "schema-build:" + genrun.crash_signature(e))
+            api, per_service = None, {}
+        mine = [(req_bytes, s, c, e) for s, c, e in sched]
+        probes = []
+        if probe:
+            # NOT part of the property (these are different requests): informational metamorphic probes
+            probes = [("proto_file-order", topo_permuted(req, r)), ("parameter-order", params_permuted(req, r))]
+            mine += [(q.SerializeToString(), sched[0][0], sched[0][1], sched[0][2]) for _, q in probes]
+        prepared.append((spec, label, sched, api, per_service, probes, len(jobs), len(mine)))
+        jobs += mine
+    outs_all = run_many(jobs)
+    for (spec, label, sched, api, per_service, probes, start, n) in prepared:
+        outs = outs_all[start:start + n]
+        for (what, q), o in zip(probes, outs[len(sched):]):
+            same = o[0] == 0 and o[1] == outs[0][1]
+            ctx.count("probe:" + what, "same response" if same else ("failed" if o[0] else "different response"))
+            if not same and o[0] == 0 and outs[0][0] == 0:
+                summ = diff_summary(plugin_pb2.CodeGeneratorResponse.FromString(outs[0][1]), plugin_pb2.CodeGeneratorResponse.FromString(o[1]))
+                ctx.notes.setdefault("probe_differences", []).append(
+                    {"probe": what, "api": label, "files": [f["name"] for f in summ["files"]][:6], "file_order": summ["file_order"],
+                     "first": [f["first"] for f in summ["files"]][:2]})
+        observe(ctx, spec, sched, outs[:len(sched)], api, per_service, label)
 
 
 def observe(ctx, spec, sched, outs, api, per_service, label):
@@ -665,12 +873,18 @@ def observe(ctx, spec, sched, outs, api, per_service, label):
         summ = diff_summary(ra, rb)
         key = classify({k: [t for t, _ in v] for k, v in per_service.items()}, summ)
         groups = len({o[1] for o in outs})
-        ctx.fail(key, f"{groups} different responses over {len(sched)} processes; hash seed {sched[0][0]} vs {sched[i][0]}: "
+        order_note = ""
+        if summ["file_order"]:
+            na, nb = [f.name for f in ra.file], [f.name for f in rb.file]
+            j = next(j for j, (x, y) in enumerate(zip(na, nb)) if x != y)
+            order_note = f" ORDER of CodeGeneratorResponse.file differs from entry {j}: {na[j]} vs {nb[j]};"
+        ctx.fail(key, f"{groups} different responses over {len(sched)} processes; hash seed {sched[0][0]} vs {sched[i][0]}:{order_note} "
                       f"{[(f['name'], f['first']) for f in summ['files']][:2]}",
                  {**payload, "differing_files": [f["name"] for f in summ["files"]], "seeds": [sched[0][0], sched[i][0]]})
     ctx.count("outcome", "identical" if not differing else "differs")
     if api is None:
         return
+    observe_ordered(ctx, spec, sched, outs, ra, api, payload)
     # ---- T3: order of emitted definitions vs the model's possible outcomes
     ops, checks = [], []
     for svc in api.services.values():
@@ -730,6 +944,80 @@ def observe(ctx, spec, sched, outs, api, per_service, label):
             ctx.disagree("T3:c10.helper_order", f"{sname}: model says order-free (injective key) but the processes emitted different orders", payload)
 
 
+SCOPES_RE = re.compile(r"AUTH_SCOPES = \((.*?)\)\n", re.S)
+
+
+def observe_ordered(ctx, spec, sched, outs, ra, api, payload):
+    """T3 for the S1/S5 instances of this round, on EVERY process's response:
+    * sub-packages: the order in which the sub-packages' files first appear in CodeGeneratorResponse.file == the model's
+      `subpackageOrder` (also restated directly: it is the sorted order of the names);
+    * OAuth scopes: `AUTH_SCOPES` of transports/base.py == the model's `oauthScopes` of the option == declaration order;
+    * snippet metadata: region tags in the order the model's sort leaves unchanged (i.e. sorted)."""
+    from google.api import client_pb2
+    subs = [list(p.meta.address.subpackage) for p in api.protos.values()]
+    ops = [{"op": "c10.subpackages", "view": [], "subs": subs}]
+    svcs = list(api.services.values())
+    for svc in svcs:
+        ops.append({"op": "c10.scopes", "opt": svc.options.Extensions[client_pb2.oauth_scopes]})
+    mo = ask(ctx, ops)
+    want_subs = mo[0]["r"]
+    real_keys = list(api.subpackages.keys())
+    ctx.traces += 1
+    ctx.count("subpackages", len(want_subs))
+    if real_keys != want_subs:
+        ctx.disagree("T2:c10.subpackages", f"model {want_subs} vs impl API.subpackages {real_keys}", payload)
+    if mo[0].get("outcomes") is not None and len(mo[0]["outcomes"]) != 1:
+        ctx.disagree("T2:c10.subpackages", f"model has {len(mo[0]['outcomes'])} outcomes for the sub-package set", payload)
+    for svc, m in zip(svcs, mo[1:]):
+        ctx.traces += 1
+        ctx.count("scopes_per_service", len(m["r"]))
+        if list(svc.oauth_scopes) != m["r"]:
+            ctx.disagree("T2:c10.oauth_scopes", f"{svc.name}: model {m['r']} vs impl {list(svc.oauth_scopes)}", payload)
+    declared = (spec.get("extras") or {}).get("scopes") or {}
+    tag_ops, tag_meta = [], []
+    for k, o in enumerate(outs):
+        resp = ra if k == 0 else plugin_pb2.CodeGeneratorResponse.FromString(o[1])
+        names = [f.name for f in resp.file]
+        seen = []
+        for n in names:
+            parts = n.split("/")
+            for sp in want_subs:
+                if sp in parts[:-1] and not n.startswith(("tests/", "samples/", "docs/")) and sp not in seen:
+                    seen.append(sp)
+        ctx.traces += 1
+        if seen != want_subs:
+            ctx.disagree("T3:c10.subpackage_file_order", f"sub-packages first appear in the response in order {seen}, model {want_subs}",
+                         {**payload, "seed": sched[k][0]})
+        if seen != sorted(seen):                       # the statement, restated without the model
+            ctx.fail("file-set-or-order", f"sub-package files appear in order {seen} (hash seed {sched[k][0]}), not in a canonical order", payload)
+        files = {f.name: f.content for f in resp.file}
+        for svc, m in zip(svcs, mo[1:]):
+            base = next((c for n, c in files.items() if f"/services/{snake(svc.name)}/" in n and n.endswith("/transports/base.py")), None)
+            if base is None:
+                continue
+            mm = SCOPES_RE.search(base)
+            got = re.findall(r"'([^']*)'", mm.group(1)) if mm else None
+            ctx.traces += 1
+            if got != m["r"]:
+                ctx.disagree("T3:c10.auth_scopes", f"{svc.name}: emitted AUTH_SCOPES {got} vs model {m['r']}", {**payload, "seed": sched[k][0]})
+            if svc.name in declared and got is not None and got != declared[svc.name]:
+                ctx.fail("scopes-reordered", f"{svc.name}: AUTH_SCOPES {got} is not the declared order {declared[svc.name]}", payload)
+        for n, c in files.items():
+            if n.startswith("samples/") and n.endswith(".json") and "snippet_metadata" in n:
+                try:
+                    tags = [sn.get("regionTag", "") for sn in json.loads(c).get("snippets", [])]
+                except Exception:
+                    continue
+                if k == 0:
+                    ctx.count("snippets_in_index", min(len(tags), 50) // 10 * 10)
+                tag_ops.append({"op": "c10.sort_by_key", "items": [[t, str(i)] for i, t in enumerate(tags[:400])], "fold": False})
+                tag_meta.append((n, tags[:400], sched[k][0]))
+    for (n, tags, seed), m in zip(tag_meta, ask(ctx, tag_ops)):
+        ctx.traces += 1
+        if m.get("order") != [str(i) for i in range(len(tags))]:
+            ctx.disagree("T3:c10.snippet_index_order", f"{n}: region tags are not in the model's sorted order", {**payload, "seed": seed})
+
+
 # ----------------------------------------------------------------------------------------- corpus
 def corpus_specs():
     out = []
@@ -745,13 +1033,17 @@ def run(ctx):
     ctx.rule = ("'determinism' profile: APIs with 1-3 proto files (+ an imported package with the same module name), 4-9 messages "
                 "with scalar/message/enum/map/well-known/resource-reference fields (cycles allowed), 0-8 resources incl. file-level "
                 "ones and — in the non-`clean` half — equal short type names, 1-3 services with overlapping method names, unary/LRO/"
-                "paged/streaming/void methods, 2-7 retryable codes per method, grpc/rest transports, snippets on/off; each API is "
-                "generated by N separate processes (distinct PYTHONHASHSEED incl. `random`, three working directories, same seed "
-                "twice). distinct by (API spec); function-level T2 cases distinct by input; non-trivial = a response was produced")
+                "paged/streaming/void methods, 2-7 retryable codes per method, grpc/rest/ads templates, snippets on/off; extras (all on "
+                "in every third API): 3-5 OAuth scopes per service, 3-4 sub-packages with messages+enums, Operations/Locations/IAM "
+                "mixins via service yaml, 3-5 extra + nested enums, multi-field method signatures, LRO requests carrying an "
+                "Operation, compute-style extended-operation services (3 operation services); each API is "
+                "generated by N separate processes (distinct PYTHONHASHSEED incl. `random`, three working directories, five "
+                "locale/TZ/HOME environments, same seed twice). distinct by (API spec); function-level T2 cases distinct by input; non-trivial = a response was produced")
     ctx.assume("option files (retry-config) are referenced by absolute path: the statement fixes 'the same referenced option files'")
     ctx.assume("resource type strings are unique per message/definition within an API (resource-name specification)")
     ctx.assume("identifiers are ASCII (the model's case folding is ASCII); proto3 field names are distinct up to case (protoc enforces it)")
-    ctx.assume("extended-operation (compute-style) services and mixins are covered by the inventory only, not by generated cases")
+    ctx.assume("selective generation (C16) is covered by the inventory only, not by generated cases")
+    ctx.assume("permuting proto_file (topologically) or the parameter string gives a DIFFERENT request: probed, reported under probe:*, never a failure")
     check_inventory(ctx)
     workdir = tempfile.mkdtemp(prefix="gapicverif_c10_", dir=genrun.SCRATCH)
     try:
@@ -761,12 +1053,17 @@ def run(ctx):
         for fname, blob in corpus_specs():
             spec = blob["spec"]
             run_api(ctx, ctx.rng("corpus", fname), spec, workdir, ctx.n(6, 12), "corpus:" + fname)
-        napis = ctx.n(8, 90)
-        nseeds = ctx.n(5, 15)
+        napis = ctx.n(8, 72)
+        nseeds = ctx.n(5, 13)
+        chunk = ctx.n(4, 6)
+        items = []
         for a in range(napis):
             rr = ctx.rng("api", a)
-            spec = gen_spec(rr, a, clean=(a % 4 != 3))
-            run_api(ctx, rr, spec, workdir, nseeds, f"api{a}")
+            # every third API is `rich`: >= 3 scopes, >= 3 sub-packages, mixins, extra enums, multi-field signatures, …
+            spec = gen_spec(rr, a, clean=(a % 4 != 3), rich=(a % 3 == 1), extop=((a % 6 == 1) if a % 3 == 1 else None))
+            items.append((rr, spec, f"api{a}", a % ctx.n(4, 3) == 1))
+        for k in range(0, len(items), chunk):
+            run_apis(ctx, items[k:k + chunk], workdir, nseeds)
     finally:
         shutil.rmtree(workdir, ignore_errors=True)
 
@@ -776,13 +1073,17 @@ def search(ctx):
     responses differ, with more processes per API and only `clean` specs (so that anything found is new)"""
     workdir = tempfile.mkdtemp(prefix="gapicverif_c10s_", dir=genrun.SCRATCH)
     try:
-        for a in range(14):
-            rr = ctx.rng("search", a)
-            spec = gen_spec(rr, 1000 + a, clean=True)
-            spec["opts"]["retry"] = True
-            if a % 2 == 0:
-                spec["opts"]["transport"] = "grpc+rest"
-            run_api(ctx, rr, spec, workdir, 10, f"search{a}")
+        for a0 in range(0, 12, 4):
+            items = []
+            for a in range(a0, a0 + 4):
+                rr = ctx.rng("search", a)
+                spec = gen_spec(rr, 1000 + a, clean=True, rich=True)      # every feature on: >= 3 elements at every ordered site
+                spec["opts"]["retry"] = True; spec["opts"]["metadata"] = True
+                spec["opts"]["snippets"] = (a % 2 == 1)
+                if a % 2 == 0 and not spec["extras"].get("extop"):
+                    spec["opts"]["transport"] = "grpc+rest"
+                items.append((rr, spec, f"search{a}", False))
+            run_apis(ctx, items, workdir, 10)
             if any(f["key"] not in {k["key"] for k in ctx.known} for f in ctx.failures):
                 break
     finally:
@@ -811,15 +1112,18 @@ CLAIM = dict(
     text="Lean 4 proof that every class of consumer of a hash-ordered container in the generator is invariant under permutation "
          "of that container: sort_lines / sorted() (S1), stable sort by key under key-injectivity — with the exact iff "
          "characterisation and the counterexample when the key is not injective (S2), membership/size/set-algebra consumers incl. "
-         "Proto.disambiguate and module-collision tests (S3), tuple(set) chains ending in such consumers (S4), and the pipeline "
+         "Proto.disambiguate and module-collision tests (S3), tuple(set) chains ending in such consumers (S4), sort by any total order, "
+         "sub-package keys and the %sub file walk (S1 instance), OAuth scopes keep declaration order (S5), and the pipeline "
          "theorem (order-free sites => schedule-independent response); instance theorems for retryable exceptions (17 class names), "
          "query params, import blocks, and for the resource path helpers as repaired for F4 (two-stage sort: order-free whenever full "
          "resource types are distinct, regression theorem for the F4 inputs, conservative w.r.t. the former single-stage order, and the "
          "remaining hypothesis shown necessary). Tie: a static inventory "
          "scan of all set/sort/impurity sites of gapic/**/*.py and the templates must equal a pinned, classified inventory; T2 of the "
          "real sort_lines, the generator's Jinja |sort filters, query_params, disambiguate, names on real schema objects vs the model "
-         "under permutations; T3 of the order of emitted helper/retry definitions vs the model's outcome sets. Oracle: the real CLI "
-         "in separate processes (different PYTHONHASHSEED, cwd, time), serialized responses byte-compared.",
+         "under permutations; T3 of the order of emitted helper/retry definitions, AUTH_SCOPES, sub-package file order and snippet-index "
+         "order of every process's response vs the model. Oracle: the real CLI in separate processes (different PYTHONHASHSEED, cwd, "
+         "locale/TZ/HOME environment, time) on APIs with >=3 elements at every sorted site (scopes, sub-packages, mixins, enums, "
+         "extended-operation services, equal short resource names, retry codes), serialized responses byte-compared.",
     technique="Lean 4 theorems over List.Perm / stable merge sort (core lemmas) + pinned static inventory + differential T2/T3 + multi-process byte-comparison oracle",
     design="7.10",
     note="Site classification in c10_inventory.json is by hand (each note says why); Jinja and CPython's sorted() are modelled as the unique stable sort; "
